@@ -7,6 +7,8 @@ TECH = "contract-based deductive verification: weakest-precondition VCs generate
 claimed = {
  "C03": ("proof of one source of analyzer panics named in the property: every type switch with a panicking default (panic / lint.ExhaustiveTypeSwitch) in nilness, unused and the check packages, whose scrutinee is a sealed interface (go/ir, go/ast, go/types), covers every implementor that can arrive, and the builtin-name switch of the nilness analysis handles every builtin go/ir can call with a pointer-like result; the implementor sets are recomputed from the loaded packages on every run, so a new IR instruction or a dropped case fails a named obligation",
          "assumed (listed one by one in trusted_base): for switches that are deliberately partial, the implementors without a case are assumed not to arrive (sweeps/C03.assumed-unreachable.json); the IR builder constructs only the types it builds with &T{} / new(T); NOT decided: every other source of panics (index errors, failed type assertions, nil dereferences inside checks), analyzer errors, loader failures", "DESIGN.md §7 C03"),
+ "C04": ("proof of key completeness, the direction of cache transparency that contracts can decide: at the moment the action id is computed in subrunner.do the hash has absorbed, in order, the salt, the merged configuration with only Checks cleared, the package hash, the analyzer names, the -go version, GODEBUG and, per dependency, its path and the content hash of its facts file; loader.computeHash absorbs the salt, GOOS/GOARCH, the import path, the ACTION id half of the build id (or all file hashes and go.mod) and one record per import",
+         "assumed: formatted records are injective in their arguments (frec uninterpreted), SHA-256 collision-free, cache.NewHash/Sum/FileHash as described (trusted contracts); NOT decided: non-interference of the analysis in everything that is not hashed (environment, files read by analyzers), the write path of the cache (which artefacts are stored under the key), histories of edits", "DESIGN.md §7 C04"),
  "C05": ("proof of the index-entry parser and of the checksum/size guards of the cache: for every content of an index file (all truncation lengths, all corruptions) DiskCache.get succeeds only for a well-formed entry naming the requested id and returns what the bytes say; GetBytes/GetFile hand out data only if SHA-256 / size match the entry",
          "assumed: file-system and stdlib model (os.Open, io.ReadFull, hex.Decode, strconv.ParseInt, sha256) as listed in trusted_base; NOT decided: crash points inside copyFile/putIndexEntry, concurrent processes and Trim, end-to-end equality of linter results", "DESIGN.md §7 C05"),
  "C09": ("proof that the binding machinery of the pattern matcher keeps alternatives atomic: Matcher.set/push/pop/merge against a set view of the frame stack; Or.Match, Not.Match, Binding.Match and Matcher.Match proved against the generic matcher contract G plus the property's clauses (failed Or alternative and Not operand leave no bindings; recall compares against the stored value); Parser.node/object/array/bindingIndex: both spellings of a binding carry the index of their name",
